@@ -18,7 +18,7 @@ func init() {
 		Name:  "UNSAT",
 		Doc:   "pruned requirements always produce the dedicated error; the error carries what is missing and what was given",
 		Run:   runUnsat,
-		Floor: map[string]int{"UNSAT-U1": 1, "UNSAT-U2": 3, "UNSAT-U3": 4, "UNSAT-U4": 1, "UNSAT-U5": 5, "UNSAT-U6": 2, "UNSAT-U7": 2},
+		Floor: map[string]int{"UNSAT-U1": 1, "UNSAT-U2": 3, "UNSAT-U3": 4, "UNSAT-U4": 1, "UNSAT-U5": 5, "UNSAT-U6": 2, "UNSAT-U7": 2, "UNSAT-U8": 3},
 	})
 }
 
@@ -177,6 +177,7 @@ func appendSites(f *ssa.Function, acc ssa.Value) []*ssa.Call {
 }
 
 func runUnsat(c *Ctx) {
+	c.runValueOf()
 	p := c.P
 	gb := c.role("UNSAT-U1", "graphBuilder")
 	ib := c.role("UNSAT-U5", "inputBuilder")
@@ -767,4 +768,96 @@ func (c *Ctx) vertexOfValue(e ssa.Value) ssa.Value {
 		}
 	}
 	return cl.Common().Args[0]
+}
+
+// runValueOf — UNSAT-U8. The user-facing Value of a vertex (what the dedicated error lists as missing arguments and
+// direct inputs, and what the input filter is shown) carries the vertex's own labels: every label field of the Value
+// built by a kind's value() method is read from the same-named field of that vertex.
+func (c *Ctx) runValueOf() {
+	p := c.P
+	kinds, err := p.VertexKinds()
+	if err != nil {
+		c.R.Undecided("UNSAT-U8", "kinds", "(vertex kinds)", "-", err.Error())
+		return
+	}
+	for _, k := range kinds.All {
+		if !kinds.Label(k) {
+			continue
+		}
+		m := p.Method(p.Arg, k, "value")
+		if m == nil {
+			c.R.Undecided("UNSAT-U8", k+"|value", k, "-", "vertex kind "+k+" has no value() method")
+			continue
+		}
+		c.R.Func(core.FuncName(m))
+		recv := m.Params[0]
+		var lit *ssa.Alloc
+		for _, r := range core.Returns(m) {
+			for _, sv := range p.ISources(r.Results[0]) {
+				if al, ok := sv.(*ssa.Alloc); ok && core.NamedOf(al.Type()) == "Value" {
+					lit = al
+				}
+			}
+		}
+		if lit == nil {
+			c.R.Undecided("UNSAT-U8", k+"|value", core.FuncName(m), p.Pos(m.Pos()), "value() does not return a Value literal")
+			continue
+		}
+		st, _ := core.StructOf(recv.Type())
+		bad := ""
+		n := 0
+		for _, ref := range *lit.Referrers() {
+			fa, ok := ref.(*ssa.FieldAddr)
+			if !ok {
+				continue
+			}
+			fr, _ := core.AsFieldAddr(fa)
+			if fr.Field != "Name" && fr.Field != "Type" && fr.Field != "Subtype" {
+				continue
+			}
+			for _, r2 := range *fa.Referrers() {
+				sto, ok := r2.(*ssa.Store)
+				if !ok || sto.Addr != ssa.Value(fa) {
+					continue
+				}
+				n++
+				v := core.Strip(sto.Val)
+				if prm, isPrm := v.(*ssa.Parameter); isPrm {
+					// a shared constructor handed the vertex's fields: bind its parameter at THIS method's call of it
+					v = core.Strip(p.Bind(prm))
+					if h := prm.Parent(); h != m {
+						for _, ci := range core.Calls(m) {
+							if ci.Common().StaticCallee() == h {
+								for i, q := range h.Params {
+									if q == prm && i < len(ci.Common().Args) {
+										v = core.Strip(ci.Common().Args[i])
+									}
+								}
+							}
+						}
+					}
+				}
+				src, ok := core.AsFieldLoad(v)
+				if !ok || src.Field != fr.Field || core.Strip(p.Bind(core.Strip(src.Base))) != ssa.Value(recv) {
+					bad = fmt.Sprintf("Value.%s is taken from %s", fr.Field, core.Path(sto.Val))
+				}
+			}
+		}
+		// every label field the kind has must be carried over
+		want := 0
+		if st != nil {
+			for i := 0; i < st.NumFields(); i++ {
+				switch st.Field(i).Name() {
+				case "Name", "Type", "Subtype":
+					want++
+				}
+			}
+		}
+		if bad == "" && n < want {
+			bad = fmt.Sprintf("only %d of the kind's %d label fields are carried over", n, want)
+		}
+		c.R.Add("UNSAT-U8", k+"|value-carries-own-labels", core.FuncName(m), p.Pos(m.Pos()), bad == "",
+			"the Value reported for a vertex (missing arguments, direct inputs, what the input filter sees) carries that vertex's own name, type and subtype",
+			ternary(bad == "", fmt.Sprintf("%d label field(s) copied from the same-named vertex field", n), bad))
+	}
 }
